@@ -285,7 +285,7 @@ def run_cases(ctx, cases, variant):
             upto = k + 1
             ok = agree(o, model[k + 1], ro, cfg["opt"])
             if isinstance(ro, str) and ro == "err:gdp-heterogeneous":
-                break   # the real accountant has popped its history; the run ends here on both sides
+                break   # a refused GDP step ends the generated run on both sides
         ops = c["ops"][:upto]
         seen_log = cut = False
         state = 0   # 0: nothing, 1: log seen, 2: save after log, 3: load after that
